@@ -415,4 +415,32 @@ Proof.
     destruct (Z.leb_spec 0 (eb_zbp (eblk p r cb))); [|lia]. repeat split; reflexivity.
 Qed.
 
+(* no contribution exceeds 65535 bytes when no code-block does *)
+Lemma small_from_blocks : forall eps, Forall (incls_ok cells) eps -> small_packets eps.
+Proof.
+  intros eps Hok. unfold small_packets. eapply Forall_impl; [|exact Hok]. intros ep [bands0 [Hget Hinc]].
+  destruct (item_key (ep_item ep)) as [[c r] pi] eqn:Ek.
+  destruct cells_facts as [Hn [_ [Hg Ho]]].
+  assert (Hcg : cget cells (c, r, pi) = bands0) by (unfold cget; rewrite Hget; reflexivity).
+  assert (Hne : bands0 <> []).
+  { intros ->. rewrite (Hn (c, r, pi)), Hcg in Hget. discriminate. }
+  destruct (Z_le_gt_dec 0 c) as [Hc0|]; [destruct (Z_lt_ge_dec c nc) as [Hc1|]|]; try (rewrite Ho in Hcg by lia; congruence).
+  destruct (Z_le_gt_dec 0 r) as [Hr0|]; [destruct (Z_le_gt_dec r L) as [Hr1|]|]; try (rewrite Ho in Hcg by lia; congruence).
+  destruct (Z.eq_dec pi 0) as [->|]; [|rewrite Ho in Hcg by lia; congruence].
+  rewrite (Hg c r ltac:(lia) ltac:(lia)) in Hcg. subst bands0.
+  rewrite Hinc. unfold exp_e. apply Forall_forall. intros e He. apply in_flat_map in He as [bd [Hbd He]].
+  apply in_map_iff in He as [b [<- Hb]].
+  assert (Hbb : In b (flat_map ebn_blocks (map bs_eband (res_specs p (cf c) r)))) by (apply in_flat_map; exists bd; split; assumption).
+  rewrite (cell_blocks c r ltac:(lia) ltac:(lia)) in Hbb. apply in_map_iff in Hbb as [cb [<- Hcb]].
+  assert (Hin : In (r, cb) (enc_blocks p (cf c))).
+  { unfold enc_blocks. apply in_flat_map. exists r. split; [apply in_zrange; fold L; lia | apply in_map; exact Hcb]. }
+  pose proof (Hsmall (cf c) (cf_in c ltac:(lia)) r cb Hin) as Hs.
+  destruct (fresh_contrib r cb c ltac:(lia) Hin) as [_ [_ [Hdata _]]]. cbv zeta in Hdata.
+  unfold expect_eincl. destruct (b_inc (eblk p r cb) (item_layer (ep_item ep))); cbn [ei_data eincl_skip].
+  - unfold b_data, contrib in *. 
+    destruct (eblk_fields p Hsc (cf c) (Hlen _ (cf_in c ltac:(lia))) (Hbound _ (cf_in c ltac:(lia))) r cb Hin) as (_ & _ & _ & _ & _ & F6 & _).
+    unfold GeoLayers.layer_contribution in *. rewrite F6 in *. cbn [snd] in *. exact Hs.
+  - change (zlen (@nil Z)) with 0. lia.
+Qed.
+
 End T2.
